@@ -227,8 +227,9 @@ func (f *focusHandler) handleEvent(app *App, ev vaxis.Event) error {
 	app.consumeEvent = false
 
 	// A handler may move the focus, and with it f.path. This event keeps
-	// the route it started on
+	// the route it started on: the path and the target at its end
 	path := f.path
+	target := f.focused
 
 	// Capture phase
 	for _, w := range path {
@@ -248,7 +249,7 @@ func (f *focusHandler) handleEvent(app *App, ev vaxis.Event) error {
 	}
 
 	// Target phase
-	cmd, err := f.focused.HandleEvent(ev, TargetPhase)
+	cmd, err := target.HandleEvent(ev, TargetPhase)
 	if err != nil {
 		return err
 	}
@@ -258,9 +259,14 @@ func (f *focusHandler) handleEvent(app *App, ev vaxis.Event) error {
 		return nil
 	}
 
-	// Bubble phase. We don't bubble to the focused widget (which is the
-	// last one in the list). Hence, - 2
-	for i := len(path) - 2; i >= 0; i -= 1 {
+	// Bubble phase. We don't bubble to the target, which is the last one
+	// in the list unless it is not part of the last frame (the path is then
+	// only the root, which captured and so bubbles, too)
+	last := len(path) - 1
+	if last >= 0 && path[last] == target {
+		last -= 1
+	}
+	for i := last; i >= 0; i -= 1 {
 		w := path[i]
 		cmd, err := w.HandleEvent(ev, BubblePhase)
 		if err != nil {
